@@ -7,12 +7,16 @@ Mirrors, function by function:
 
 * `Stream.WriteSCTP` / `packetize` / `Association.sendPayloadData`   → `write` (`packetize`, `rollback`, `pushPending`)
 * `gatherOutbound` (data part, state established)                    → `gather` =
-  `getDataPacketsToRetransmit` → `rtxLoop`, `popPendingDataChunksToSend` + `movePendingDataChunkToInflightQueue`
-  → `popLoop` / `probe` / `move`, `gatherOutboundFastRetransmissionPackets` → `fastLoop`,
+  `getDataPacketsToRetransmit` → `gatherRtx` (`scanLoop` with `rtxDecide` / `rtxUpd`),
+  `popPendingDataChunksToSend` + `movePendingDataChunkToInflightQueue` → `gatherNew` (`popLoop` with `popDecide`,
+  `admitChunk` = `chargeSend` + `move`; `probe` with `admitProbe` = `chargeProbe` + `move`),
+  `gatherOutboundFastRetransmissionPackets` → `gatherFast` (`scanLoop` with `fastDecide` / `fastUpd`),
+  the shared "fits the packet? budget?" tail of the three loops → `packAllow`,
   `bundleDataChunksIntoPackets` → `bundle`, `packet.marshal` length → `marshalLen`
-* `handleSack` → `sack` = `processAcknowledgement` (`validate`, `popCum`, `markGaps`, `onCumAdvanced`,
-  `releaseAll` = `Stream.onBufferReleased` per stream), rwnd update, `processFastRetransmission` → `missLoop`,
-  `finishAcknowledgement` PR part → `advLoop`
+* `handleSack` → `sack` = `processAcknowledgement` (`validate`, then `ackPhase` = `popCum`, `markGaps`, `ackApply` =
+  cumulative point, `onCumAdvanced`, `releaseAll` = `Stream.onBufferReleased` per stream), `setPeerWindow` (rwnd),
+  `processFastRetransmission` → `fastRetransCheck` (`frLoop` / `missLoop`, `frPost`),
+  `finishAcknowledgement` PR part → `prStep` (`advancePeerAck` / `advLoop`), RACK marks → `applyMarks`
 * `onRetransmissionTimeout(T3)` → `t3` (`markAllToRetransmit`)
 * `payloadQueue` (`pushNoCheck/pop/get/markAsAcked/markAllToRetrasmit/getNumBytes`) → the list `inflight`
   with the byte counter `infBytes`; `get` is by offset from the front chunk's TSN exactly as in the code.
